@@ -64,6 +64,12 @@ func wireTo(sb *strings.Builder, o pdf.Object) {
 		}
 		sb.WriteString("]")
 	case pdf.Dict:
+		if x == nil && wireNilDict {
+			// typed nil Dict: like a nil Array it is the null object (C01 sets the flag; the
+			// Lean side reads "N" as the same value as "Z")
+			sb.WriteString("N")
+			return
+		}
 		sb.WriteString("d")
 		keys := make([]string, 0, len(x))
 		for k := range x {
@@ -88,6 +94,10 @@ func wireNorm(o pdf.Object) string {
 	wireNormTo(&sb, o)
 	return sb.String()
 }
+
+// wireNilDict makes wireTo write a typed nil Dict as "N" instead of as the empty dictionary "d>".
+// Only the C01 runs set it (one property per process).
+var wireNilDict bool
 
 func isNilObj(o pdf.Object) bool {
 	if o == nil {
